@@ -178,18 +178,22 @@ def body_volume(case, ctx):
 
     if ch.bounds is not None:
         lo, hi = ch.bounds.lower, ch.bounds.upper
-        if np.any(t0 - 2e-4 * s < lo) or np.any(t0 + 2e-4 * s > hi):
+        if np.any(t0 - 4e-4 * s < lo) or np.any(t0 + 4e-4 * s > hi):
             raise Inconclusive("start too close to a wall for a central stencil")
+    # three stencil widths: their spread measures the noise of the determinant (round-off of the map divided by the step, amplified by
+    # the conditioning of J for unstable trajectories; truncation for the widest); the verdict allows twice that spread
     with np.errstate(all="ignore"):
-        d1, d2 = abs(np.linalg.det(jac(1e-4))), abs(np.linalg.det(jac(5e-5)))
-    if not (np.isfinite(d1) and np.isfinite(d2)):
+        dets = [abs(np.linalg.det(jac(h))) for h in (2e-4, 1e-4, 5e-5)]
+    if not all(np.isfinite(v) for v in dets):
         raise Inconclusive("jacobian not finite")
-    if abs(d1 - d2) > 1e-6 * max(d1, d2, 1.0):
+    spread = max(dets) - min(dets)
+    if spread > 1e-6 * max(max(dets), 1.0):
         ctx.event("skipped:stencils-disagree")
         raise Inconclusive("stencils disagree (wall crossing inside the stencil or strong curvature)")
-    ctx.ratio("volume", abs(d2 - 1), 1e-6)
-    if abs(d2 - 1) > 1e-6:
-        raise Violation(f"volume:{cls_tag(ch, reflecting)}", f"{case['target']['kind']} d={d} n={n}: |det J| of the trajectory map = {d2!r}")
+    d2 = float(np.median(dets))
+    ctx.ratio("volume", abs(d2 - 1), 1e-6 + 2 * spread)
+    if abs(d2 - 1) > 1e-6 + 2 * spread:
+        raise Violation(f"volume:{cls_tag(ch, reflecting)}", f"{case['target']['kind']} d={d} n={n}: |det J| of the trajectory map = {d2!r} (stencil spread {spread:.2g})")
     ctx.nontrivial(reflecting or mass_kind(ch) == "matrix" or case["T"] != 1.0)
     ctx.event(cls_tag(ch, reflecting))
 
